@@ -372,6 +372,10 @@ def run(ctx):
     ctx.rule('C06.CANCEL', lambda: rule_cancel(ctx, lc), 4)
     from .flushall import rule_flushall
     ctx.rule('C06.FLUSHALL', lambda: rule_flushall(ctx, 'C06'), 3)
+    ctx.rule('C06.CANCELPROP', lambda: rule_cancel_propagates(ctx), 10)
+    ctx.rule('C06.FLUSHOFFLINE', lambda: rule_flush_offline(ctx), 3)
+    from . import c04 as _c04
+    ctx.rule('C06.STATEALIAS', lambda: _c04.rule_statealias(ctx, 'C06'), 2)
     # each backup job leaves the durable state consistent at one height: the history truncation belongs to
     # the same job as the UTXO commit (a stop between jobs is a legal cancellation instant)
     from ..effects import InlineGraph
@@ -385,3 +389,75 @@ def run(ctx):
     else:
         ctx.bad('C06.JOBATOMIC', ctx.key(fb, None, 'commit point'), 'backup flush has no single UTXO commit with the state record',
                 loc=ctx.loc(fb, fb.node))
+
+
+def _task_closure(ctx, root, kinds=('AWAIT', 'CALL', 'COROARG')):
+    seen, work = {}, [root]
+    while work:
+        g = work.pop()
+        if g.key in seen:
+            continue
+        seen[g.key] = g
+        for e in ctx.cg.callees(g, ('AWAIT', 'CALL')):
+            work.append(e[1])
+        for (caller, outer, inner, callee) in ctx.cg.coro_args:
+            if caller.key == g.key and callee is not None:
+                work.append(callee)
+        for nested in g.nested.values():
+            work.append(nested)
+    return seen
+
+
+def rule_cancel_propagates(ctx):
+    '''The shutdown request reaches the block-processing task as ONE CancelledError.  Every coroutine the task can be
+    suspended in must let it propagate to the handler in fetch_and_process_blocks: an `except CancelledError` / bare
+    except / `except BaseException` below it that does not re-raise swallows the request - the server neither stops
+    nor runs the safe flush.'''
+    root = ctx.func('bp', 'BlockProcessor.fetch_and_process_blocks')
+    clo = _task_closure(ctx, root)
+    n = 0
+    for g in clo.values():
+        if not g.is_async:
+            continue
+        for t in [x for x in g.own_nodes() if isinstance(x, ast.Try)]:
+            for h in t.handlers:
+                names = [norm(x).split('.')[-1] for x in (h.type.elts if isinstance(h.type, ast.Tuple) else [h.type])] if h.type else ['*']
+                if not any(nm in ('CancelledError', 'BaseException', '*') for nm in names):
+                    continue
+                if g.key == root.key:
+                    continue      # the designated handler (decided by C06.CANCEL)
+                n += 1
+                # accepted: the handler re-raises on every path
+                cfg = ctx.cfg(g)
+                raises = [cfg.node(s) for s in walk_own(h) if isinstance(s, ast.Raise)]
+                first = cfg.node(h.body[0]) if h.body else None
+                ok = first is not None and bool(raises) and pr.path_avoiding(cfg, [first], [cfg.exit], set(raises)) is None \
+                    and not any(isinstance(s, (ast.Return, ast.Break, ast.Continue)) for s in walk_own(h))
+                # ... and only if the body can actually suspend
+                ctx.check(ok, 'C06.CANCELPROP', ctx.key(g, h, '/'.join(names)),
+                          'the handler re-raises the cancellation on every path',
+                          f'{g.qual} catches {"/".join(names)} without re-raising: a shutdown request that arrives while the processing '
+                          'task is suspended here is swallowed - the task keeps indexing, the handler in fetch_and_process_blocks never '
+                          'runs and finished blocks are not flushed', loc=ctx.loc(g, h))
+    ctx.ok('C06.CANCELPROP', f'{root.unit.relpath} :: processing task :: {len(clo)} functions scanned',
+           'no coroutine below the processing task swallows CancelledError')
+    return n + len(clo)
+
+
+def rule_flush_offline(ctx):
+    '''The shutdown flush must complete whatever state the daemon is in: nothing on the path from flush_if_safe to the DB
+    may await a daemon request (Daemon._send retries for ever while the daemon is down).'''
+    fis = ctx.func('bp', 'BlockProcessor.flush_if_safe')
+    clo = _task_closure(ctx, fis)
+    dm = ctx.repo.path('daemon')
+    bad = []
+    for g in clo.values():
+        for e in ctx.cg.callees(g, ('AWAIT',)):
+            if e[1].unit.relpath == dm and e[1].is_async:
+                bad.append(f'{ctx.loc(g, e[3])} {g.qual}: await {e[1].qual}')
+    ctx.check(not bad, 'C06.FLUSHOFFLINE', ctx.key(fis, None, 'no daemon request on the shutdown flush path'),
+              f'the shutdown flush path ({len(clo)} functions) awaits no daemon request',
+              'the shutdown flush waits for the daemon (' + '; '.join(bad[:3]) + '): with the daemon unreachable the request is retried '
+              'for ever, the flush never happens and the finished blocks are lost when the process is killed',
+              loc=ctx.loc(fis, fis.node))
+    return len(clo)
